@@ -24,8 +24,29 @@ def asciiLower (c : Char) : Char :=
 def isAsciiWs (c : Char) : Bool :=
   c == ' ' || c == '\t' || c == '\n' || c == '\x0c' || c == '\r'
 
+/-- `trim_matches(|c| c.is_ascii_whitespace())`. -/
+def trimAsciiWs (s : Str) : Str := ((s.dropWhile isAsciiWs).reverse.dropWhile isAsciiWs).reverse
+
+def isDigits (s : Str) : Bool := !s.isEmpty && s.all fun c => '0'.toNat ≤ c.toNat && c.toNat ≤ '9'.toNat
+
+/-- `num_canon` of `harness/src/suite_cmp.rs`: normal form of a decimal numeral `-?digits(.digits)?`,
+    any other string is its own normal form. -/
+def numCanon (s : Str) : Str :=
+  let neg : Bool := match s with | '-' :: _ => true | _ => false
+  let rest : Str := match s with | '-' :: r => r | _ => s
+  let int := rest.takeWhile (· != '.')
+  let frac? : Option Str := match rest.dropWhile (· != '.') with | [] => none | _ :: f => some f
+  if !isDigits int || (match frac? with | some f => !isDigits f | none => false) then s
+  else
+    let int' := int.dropWhile (· == '0')
+    let frac' := ((frac?.getD []).reverse.dropWhile (· == '0')).reverse
+    (if neg then ['-'] else []) ++ (if int'.isEmpty then ['0'] else int') ++
+      (if frac'.isEmpty then [] else '.' :: frac')
+
 /-- The menu of text comparisons. -/
 def textCmpOf : String → Option TextCmp
+  | "trim" => some fun a b => trimAsciiWs a == trimAsciiWs b
+  | "num" => some fun a b => numCanon a == numCanon b
   | "eq" => some strEq
   | "ci" => some fun a b => a.map asciiLower == b.map asciiLower      -- eq_ignore_ascii_case
   | "ws" => some fun a b => a.filter (!isAsciiWs ·) == b.filter (!isAsciiWs ·)
